@@ -7,7 +7,7 @@ VARIABLES l
 TLog == ndJsonDeserialize(IOEnv.TRACE_FILE)
 EnvOf(list) == LET S == {list[i] : i \in 1 .. Len(list)}
                IN [nm \in {e.name : e \in S} |-> LET e == CHOOSE x \in S : x.name = nm IN [v |-> e.v, r |-> e.r]]
-Check(x) == LET e == Decode(x.enc, EnvOf(x.env), x.pkt, x.pos) IN
+Check(x) == LET e == SBDecode(x.enc, EnvOf(x.env), x.pkt, x.pos) IN
     IF e.k = "undef" THEN "ok"
     ELSE IF e.k = "err" THEN (IF x.obs.k = "err" THEN "ok" ELSE "error-expected")
     ELSE IF x.obs.k # "val" THEN "value-expected"
@@ -15,7 +15,7 @@ Check(x) == LET e == Decode(x.enc, EnvOf(x.env), x.pkt, x.pos) IN
     ELSE IF x.obs.raw # e.raw THEN "raw"
     ELSE IF x.enc.k = "str" /\ x.obs.text # e.text THEN "text"
     ELSE "ok"
-Show(x) == LET e == Decode(x.enc, EnvOf(x.env), x.pkt, x.pos) IN ToJson(e)
+Show(x) == LET e == SBDecode(x.enc, EnvOf(x.env), x.pkt, x.pos) IN ToJson(e)
 Init == l = 1
 Next == /\ l <= Len(TLog) + 1
         /\ IF l <= Len(TLog)
